@@ -8,7 +8,13 @@ package main
 
 import (
 	"database/sql"
+	"encoding/json"
 	"fmt"
+	"os"
+	"os/exec"
+	"sort"
+	"strconv"
+	"strings"
 
 	dblib "github.com/SAP/go-dblib"
 	"github.com/SAP/go-dblib/vrt"
@@ -18,6 +24,7 @@ import (
 type Case struct {
 	Op      string `json:"op"` // fromgo | togo | string | roundtrip
 	Level   int    `json:"level"`
+	Level2  int    `json:"level2,omitempty"`
 	Choices []int  `json:"choices,omitempty"`
 }
 
@@ -56,9 +63,22 @@ func eval(c Case) string {
 			return "error"
 		}
 		return fmt.Sprintf("sql=%d", int(a.ToGo()))
+	case "fromgo-seq", "togo-seq", "string-seq":
+		// history: level A, level B, level A again within one process
+		op := strings.TrimSuffix(c.Op, "-seq")
+		a1 := eval(Case{Op: op, Level: c.Level})
+		eval(Case{Op: op, Level: c.Level2})
+		a2 := eval(Case{Op: op, Level: c.Level})
+		a3 := eval(Case{Op: op, Level: c.Level})
+		if a1 != a2 || a2 != a3 {
+			return fmt.Sprintf("inconsistent:%s/%s/%s", a1, a2, a3)
+		}
+		return a1
 	}
 	return "?"
 }
+
+var hiddenState []string
 
 func explore(c Case) {
 	answers := map[string][]int{}
@@ -81,7 +101,11 @@ func explore(c Case) {
 		h.Violate(sig, det, cc)
 	}}, func() { got = eval(c) })
 	if st.Diverged != "" {
-		h.Fatal("diverged: %s", st.Diverged)
+		// the evaluation keeps state across executions (a cache filled on first use): in-process
+		// exploration of orders is not possible; the cross-process sweep below decides.
+		hiddenState = append(hiddenState, fmt.Sprintf("%s(%d): %s", c.Op, c.Level, st.Diverged))
+		h.Outcome("hidden-state")
+		return
 	}
 	h.EvalN(st.Execs, st.Execs)
 	h.AddStates(st.Execs)
@@ -123,14 +147,126 @@ func explore(c Case) {
 				}
 			}
 			h.Outcome("roundtrip")
+		case "fromgo-seq":
+			want, ok := refFromGo(sql.IsolationLevel(c.Level))
+			w := "error"
+			if ok {
+				w = fmt.Sprintf("ase=%d", int(want))
+			}
+			if a != w {
+				h.Violate("C20|fromgo|history-dependent", fmt.Sprintf("translating %d, then %d, then %d twice gives %s, reference table says %s every time", c.Level, c.Level2, c.Level, a, w), c)
+			}
+			h.Outcome("seq")
+		case "togo-seq", "string-seq":
+			if strings.HasPrefix(a, "inconsistent") {
+				h.Violate("C20|"+strings.TrimSuffix(c.Op, "-seq")+"|history-dependent", fmt.Sprintf("%s of %d, then %d, then %d twice: %s", c.Op, c.Level, c.Level2, c.Level, a), c)
+			}
+			h.Outcome("seq")
 		default:
 			h.Outcome(c.Op + "-deterministic")
 		}
 	}
 }
 
+// allKeys evaluates every operation on every level once, in a fixed order.
+func allAnswers(choices []int) map[string]string {
+	out := map[string]string{}
+	one := func(c Case) {
+		var got string
+		x := vrt.Run(vrt.Config{Choices: choices, Lenient: true}, func() { got = eval(c) })
+		if x.Failure != nil {
+			got = "failure:" + x.Failure.Kind
+		}
+		out[fmt.Sprintf("%s(%d)", c.Op, c.Level)] = got
+	}
+	for l := -2; l <= 8; l++ {
+		one(Case{Op: "togo", Level: l})
+		one(Case{Op: "string", Level: l})
+	}
+	for l := -8; l <= 64; l++ {
+		one(Case{Op: "fromgo", Level: l})
+		one(Case{Op: "roundtrip", Level: l})
+	}
+	return out
+}
+
+// factorial-base digits of n: the n-th permutation of up to 7 keys
+func orderChoices(n int) []int {
+	var d []int
+	for k := 7; k >= 2; k-- {
+		d = append(d, n%k)
+		n /= k
+	}
+	return d
+}
+
+// sweepProcesses evaluates everything in a fresh process per iteration order
+// (so that state built on first use is built under every order) and demands
+// one answer per key over all processes.
+func sweepProcesses() {
+	seen := map[string]map[string]int{}
+	n := 0
+	for ord := 0; ord < 5040; ord++ {
+		if !h.Mine(ord + 7) {
+			continue
+		}
+		if h.Expired("cross-process order sweep cut short") {
+			break
+		}
+		cmd := exec.Command(os.Args[0], "-child", strconv.Itoa(ord))
+		bs, err := cmd.Output()
+		if err != nil {
+			h.Fatal("child %d failed: %v", ord, err)
+		}
+		var ans map[string]string
+		if err := json.Unmarshal(bs, &ans); err != nil {
+			h.Fatal("child %d: bad output %q", ord, bs)
+		}
+		n++
+		for k, v := range ans {
+			if seen[k] == nil {
+				seen[k] = map[string]int{}
+			}
+			if _, ok := seen[k][v]; !ok {
+				seen[k][v] = ord
+			}
+		}
+	}
+	h.EvalN(int64(n), int64(n))
+	h.AddStates(int64(n))
+	h.AddTransitions(int64(n) * 168)
+	h.AddTraces(int64(n))
+	h.Section("process-per-order", int64(n))
+	keys := make([]string, 0, len(seen))
+	for k := range seen {
+		keys = append(keys, k)
+	}
+	sort.Strings(keys)
+	for _, k := range keys {
+		if len(seen[k]) > 1 {
+			op := k[:strings.Index(k, "(")]
+			h.Violate("C20|"+op+"|differs-across-processes", fmt.Sprintf("%s answers differently in fresh processes depending on the map iteration order in force when it is first used: %v (answer -> order number)", k, seen[k]), Case{Op: "process-sweep", Level: 0})
+		}
+	}
+	// this shard saw only its share of orders: hand the answers to the merge step via outcomes
+	for _, k := range keys {
+		if len(seen[k]) == 1 {
+			for v := range seen[k] {
+				op := k[:strings.Index(k, "(")]
+				h.Unique(k, v, "C20|"+op+"|differs-across-processes")
+			}
+		}
+	}
+}
+
 func main() {
 	h = hlib.Init("C20")
+	if c := hlib.Child(); c != "" {
+		ord, _ := strconv.Atoi(c)
+		bs, _ := json.Marshal(allAnswers(orderChoices(ord)))
+		os.Stdout.Write(bs)
+		return
+	}
 	var rc Case
 	if h.ReplayCase(&rc) {
 		var got string
@@ -140,7 +276,11 @@ func main() {
 		}
 		_ = x
 		fmt.Printf("replay: %s(%d) under order choices %v = %s\n", rc.Op, rc.Level, rc.Choices, got)
-		explore(rc)
+		if rc.Op == "process-sweep" {
+			sweepProcesses()
+		} else {
+			explore(rc)
+		}
 		h.ReplayReport()
 	}
 	idx := 0
@@ -164,6 +304,28 @@ func main() {
 			}
 		}
 	}
-	// conformance of the seam: free evaluations must only show explored answers
+	// histories: A, B, A, A for every ordered pair of levels
+	for a := -8; a <= 64; a++ {
+		idx++
+		if !h.Mine(idx) {
+			continue
+		}
+		for b := -8; b <= 64; b++ {
+			explore(Case{Op: "fromgo-seq", Level: a, Level2: b})
+		}
+	}
+	for a := -2; a <= 8; a++ {
+		for b := -2; b <= 8; b++ {
+			idx++
+			if h.Mine(idx) {
+				explore(Case{Op: "togo-seq", Level: a, Level2: b})
+				explore(Case{Op: "string-seq", Level: a, Level2: b})
+			}
+		}
+	}
+	sweepProcesses()
+	if len(hiddenState) > 0 {
+		h.R.Extra["hidden_state_detected"] = hiddenState[0]
+	}
 	h.Done()
 }
